@@ -750,6 +750,16 @@ func (s SingleAdmission) convert() (*cert.Admissions, error) {
 				return nil, err
 			}
 		}
+		//registrationNumber is a PrintableString. encoding/asn1 lets '*' through,
+		//which X.680 does not allow, so check the character set ourselves
+		for _, r := range pi.RegistrationNumber {
+			if !(r >= 'a' && r <= 'z' || r >= 'A' && r <= 'Z' || r >= '0' && r <= '9' ||
+				strings.ContainsRune(" '()+,-./:=?", r)) {
+				return nil, fmt.Errorf("config-v1: [admission] registrationNumber '%v' contains '%c', which a PrintableString can't hold",
+					pi.RegistrationNumber, r)
+			}
+		}
+
 		var addProfInfo []byte
 		if len(pi.AddProfessionInfo) > 0 {
 			addProfInfo, err = readRawString(pi.AddProfessionInfo)
